@@ -29,6 +29,8 @@ def nontrivial(run, m):
 def jobs(tier, seed):
     js = batches("conduct", scale(tier, 260, 5000), scale(tier, 20, 100), gen="mix", p_loop=0.3, P=PJ, gseed=seed,
                  scheds=scale(tier, 2, 4), lazy=[0, 50, 80, 25], p_fail=0.15, name="free")
+    js += batches("conduct", scale(tier, 160, 3000), scale(tier, 20, 100), gen="dag", P=dict(PJ, p_fail_cmd=0.0), gseed=seed + 3,
+                  scheds=2, lazy=[0, 50], p_fail=0.3, ctl=dict(rerun=1.0), name="default-rerun")
     js += batches("orders", scale(tier, 70, 1500), scale(tier, 5, 40), gen="dag", P=dict(PJ, nmax=5, nmin=3, p_items=0.0),
                   gseed=seed + 1, max_orders=scale(tier, 80, 720), max_completions=scale(tier, 6, 7), name="orders")
     js += batches("conduct", scale(tier, 60, 1200), scale(tier, 20, 100), gen="dag", P=dict(PJ, p_intjoin=0.9, p_intjoin_less=0.9),
